@@ -218,7 +218,69 @@ def oracle_builtin(case, r):
 
 # ------------------------------------------------------------------------------------ route T2: `where`
 
-L1_LOOPS = {"Skc.L1.Loops": ["loop_where"]}
+L1_LOOPS = {"Skc.L1.Loops": ["loop_where", "loop_mw_changepoints"]}
+
+
+def gen_mwcp(rng, nmax):
+    n = rng.randint(0, 3) if rng.random() < 0.1 else rng.randint(1, max(2, 3 * nmax))
+    R = rng.choice([2, 3, 5, 20])
+    kind = rng.choice(["iid", "plateaus", "ends"])
+    if kind == "iid":
+        sc = [rng.randint(0, R) for _ in range(n)]
+    elif kind == "plateaus":  # long runs above the threshold with tied maxima inside them
+        sc, v = [], rng.randint(0, R)
+        while len(sc) < n:
+            sc += [v] * rng.randint(1, 5)
+            v = rng.randint(0, R)
+        sc = sc[:n]
+    else:  # the run above the threshold touches the last (or the first) position and peaks there
+        sc = [0] * n
+        for i in range(min(n, rng.randint(1, 4))):
+            sc[n - 1 - i] = R - i if rng.random() < 0.5 else R
+        if rng.random() < 0.5:
+            for i in range(min(n, rng.randint(1, 3))):
+                sc[i] = R
+    return {"scores": sc, "thr": rng.choice([0, 1, R // 2, R - 1, R]) + rng.choice([0, 0, 0.5, -0.5]), "mdi": rng.randint(0, 4)}
+
+
+def impl_mwcp(case):
+    from skchange.change_detectors.moving_window import get_moving_window_changepoints
+
+    try:
+        sc = np.array(case["scores"], dtype=float)
+        keep = sc.copy()
+        out = get_moving_window_changepoints(sc, float(case["thr"]), int(case["mdi"]))
+        return {"outcome": "ok", "cps": [int(v) for v in out], "mutated": not np.array_equal(keep, sc)}
+    except Exception as ex:
+        return {"outcome": "raises:" + type(ex).__name__, "msg": str(ex)[:200]}
+
+
+def mwcp_line(case):
+    return f"genmwcp {case['mdi']} {core.rat(float(case['thr']))} " + " ".join(str(v) for v in case["scores"])
+
+
+def canon_mwcp(case, r):
+    return "[" + ", ".join(str(v) for v in r["cps"]) + "]" if r["outcome"] == "ok" else "raises"
+
+
+def oracle_mwcp(case, r):
+    """one changepoint per maximal run of scores above the threshold that has at least `mdi` positions: the first position
+    of the run's maximum; in increasing order"""
+    sc, thr, mdi = case["scores"], case["thr"], case["mdi"]
+    n = len(sc)
+    above = [v > thr for v in sc]
+    want = []
+    for s in range(n):
+        for e in range(s + 1, n + 1):
+            if all(above[s:e]) and (s == 0 or not above[s - 1]) and (e == n or not above[e]) and e - s >= mdi:
+                want.append(s + max(range(e - s), key=lambda i: (sc[s + i], -i)))
+    if r["outcome"] != "ok":
+        return f"get_moving_window_changepoints raises {r['outcome']} on scores {sc}, threshold {thr}, min_detection_interval {mdi}"
+    if r["cps"] != want:
+        return f"get_moving_window_changepoints({sc}, {thr}, {mdi}) = {r['cps']}; the peaks of the sufficiently long runs above the threshold are {want}"
+    if r["mutated"]:
+        return "get_moving_window_changepoints modified the scores"
+    return None
 
 
 def gen_where(rng, nmax):
@@ -317,9 +379,18 @@ def run(chk: core.Check):
         "`genwhere`), which Skc/L1/Loops.lean proves equal to the model `whereRuns` for every input. " % (3 * nmax))
     wrng = core.rng_for(chk.seed, "C08/where")
     wcases = core.Gen(gen_where, wrng, nmax, N // 2)
-    translated = all(status.get(k, {}).get("state") == "translated" for k in L1_LOOPS["Skc.L1.Loops"])
+    translated = status.get("loop_where", {}).get("state") == "translated"
     chk.run_stream("gen-where", wcases, impl_where, line=where_line if translated else None, canon=canon_where if translated else None,
                    oracle=oracle_where, site="where", nontrivial=lambda c, r: r.get("outcome") == "ok" and len(r["runs"]) > 0)
+    chk.rules.append(
+        "gen-mwcp: integer score curves of length 0..%d (iid, plateaus with tied maxima, runs touching either end), thresholds at and "
+        "between the score values, min_detection_interval 0..4; `get_moving_window_changepoints` against the peak-of-run definition "
+        "and against the Lean definition regenerated from its source (driver op `genmwcp`), which Skc/L1/Loops.lean proves equal to "
+        "the model `mwCpts` for every input. " % (3 * nmax))
+    translated2 = all(status.get(k, {}).get("state") == "translated" for k in L1_LOOPS["Skc.L1.Loops"])
+    chk.run_stream("gen-mwcp", core.Gen(gen_mwcp, core.rng_for(chk.seed, "C08/mwcp"), nmax, N // 2), impl_mwcp,
+                   line=mwcp_line if translated2 else None, canon=canon_mwcp if translated2 else None, oracle=oracle_mwcp,
+                   site="get_moving_window_changepoints", nontrivial=lambda c, r: r.get("outcome") == "ok" and len(r["cps"]) > 0)
     chk.rules.append(
         "mw-hash: MovingWindow with hash change scores (integer landscapes modulo R, negative values included), bandwidth 1..4, "
         "n in 2b..%d, every admissible min_detection_interval, exact thresholds 0..R via the scale or tuned thresholds, scores "
